@@ -194,8 +194,13 @@ fn chain_position(dec: &Decoded, key: &[u8]) -> &'static str {
 pub fn run(a: &Args) -> Ctx {
     // `--as C09`: the same exploration judged for C09 ("the encoded record never exceeds its slot, writing one
     // entry never alters the bytes of another"): only overflow-shaped findings count then
-    let as_c09 = a.get("as") == Some("C09");
-    let mut ctx = if as_c09 { Ctx::new("C09", &["C09"], &a.replay_dir, &a.shard_name()) } else { Ctx::new("C08", &["C08"], &a.replay_dir, &a.shard_name()) };
+    // likewise `--as C05` (structure-shaped findings of the decoder count) and `--as C06` (storage-shaped ones)
+    let mut ctx = match a.get("as") {
+        Some("C09") => Ctx::new("C09", &["C09"], &a.replay_dir, &a.shard_name()),
+        Some("C05") => Ctx::new("C05", &["C05"], &a.replay_dir, &a.shard_name()),
+        Some("C06") => Ctx::new("C06", &["C06"], &a.replay_dir, &a.shard_name()),
+        _ => Ctx::new("C08", &["C08"], &a.replay_dir, &a.shard_name()),
+    };
     let mut cap = a.get_u64("states", 2500) as usize;
     // shard -> (table, value-file boundary, key-file boundary). 16 KiB: width boundary of the slot-size
     // estimate (enc(offset)); 128 KiB: width boundary of the stored field (enc(offset/8)); 2 MiB: next estimate boundary
@@ -222,15 +227,18 @@ pub fn run(a: &Args) -> Ctx {
     // alphabet: key lengths exactly on slot edges for the offset widths in play. 10 and 18 fill a 16/24-byte
     // slot exactly while both offset fields take 2 bytes, 9 while one of them takes 3, 11/19 only as chain tail:
     // several exactly-full records in one chain are what makes a relocation cascade towards the bucket head
-    let alphabets: [&[usize]; 3] = [&[10, 10, 10, 11, 9], &[10, 18, 10, 18, 11], &[9, 10, 19, 18, 10]];
-    let lens_all = alphabets[(salt % 3) as usize];
+    // the fourth alphabet: records of 897..1017 estimated bytes live in the 1024-byte slot, whose size field is one
+    // byte wider than the estimate assumes (1000, 1005, 900), next to exactly-full short ones
+    let alphabets: [&[usize]; 4] = [&[10, 10, 10, 11, 9], &[10, 18, 10, 18, 11], &[9, 10, 19, 18, 10], &[1000, 1005, 10, 900, 11]];
+    // shards 0..17 take the first alphabet on all 18 start images, 18..35 the second, and so on
+    let lens_all = alphabets[((a.shard / variants.len()) % 4) as usize];
     let nk = 4 + ((salt / 3) % 2) as usize;
     let mut ctr = 7 * salt;
     let keys: Vec<Vec<u8>> = (0..nk).map(|i| key_in_bucket(n, b, lens_all[i], b'k', &mut ctr)).collect();
     // the last set keeps the shared first-fit list of slots >= 1024 bytes busy with three different sizes
     // (slots 1152, 1408, 1536): a fitting free slot behind a non-fitting one, unlinking from the middle
     let val_sets: [&[u32]; 4] = [&[14, 15, 300, 1100], &[0, 22, 23, 5000], &[14, 126, 127, 2000], &[1100, 1400, 1500, 14]];
-    let vals: Vec<ValSpec> = val_sets[((salt + a.shard as u64) % 4) as usize].iter().enumerate().map(|(i, &l)| ValSpec { len: l, seed: i as u32 + 1, kind: 0 }).collect();
+    let vals: Vec<ValSpec> = val_sets[((a.shard / variants.len() + a.shard % variants.len() + a.seed as usize) % 4) as usize].iter().enumerate().map(|(i, &l)| ValSpec { len: l, seed: i as u32 + 1, kind: 0 }).collect();
     let mut transitions: Vec<Op> = Vec::new();
     for k in 0..keys.len() {
         for v in vals.iter() {
@@ -375,15 +383,26 @@ fn transition(env: &Env, st: &State, pre_dec: &Decoded, op: &Op, ctx: &mut Ctx) 
     };
     let fail = |ctx: &mut Ctx, msg: String| {
         // a record that does not fit its slot / bytes of another entry altered: that is C09's statement as well
-        let overflow = ["overruns slot", "overruns file", "stranded", "not the start of a slot", "unaligned", "another entry"].iter().any(|p| msg.contains(p));
-        let owners: &'static [&'static str] = if overflow { &["C08", "C09"] } else { &["C08"] };
+        let has = |pats: &[&str]| pats.iter().any(|p| msg.contains(p));
+        let overflow = has(&["overruns slot", "overruns file", "stranded", "not the start of a slot", "unaligned", "another entry"]);
+        let structure = has(&["Chain:", "Placement:", "Dup:", "Count:", "Bitmap:", "ValRef:", "Header:", "Fatal:", "decoded ", "is missing from the decoded"]);
+        let storage = has(&["Tiling:", "Membership:", "FreeList:", "Fatal:"]);
+        let owners: &'static [&'static str] = match (overflow, structure, storage) {
+            (true, true, _) => &["C08", "C09", "C05"],
+            (true, false, true) => &["C08", "C09", "C06"],
+            (true, false, false) => &["C08", "C09"],
+            (false, true, true) => &["C08", "C05", "C06"],
+            (false, true, false) => &["C08", "C05"],
+            (false, false, true) => &["C08", "C06"],
+            _ => &["C08"],
+        };
         let f = finding(owners, "relocation", 0, format!("{msg} [table {n}, affected key at chain position '{pos}', state depth {}]", st.depth));
         // witness: the start image is not rebuilt from ops alone; record the transition and the state digest
         let h = History { kt: "bytes".into(), cfg: env.cfg, keys: keys.clone(), ops: vec![op.clone()], origin: format!("c08 transition from a state at depth {} (start: val boundary {}, key boundary {}); state image digest {:016x}", st.depth, env.val_boundary, env.key_boundary, st.img.digest()) };
         let stop = ctx.classify(f);
         ctx.record_stop(stop, Some(&h));
     };
-    let mut s = Session::<DbBytes> { dir: dir.clone(), name: "m".into(), db: None, map: None, extra: vec![], model: st.model.clone(), n_buckets: 0, budget: crate::session::STEP_BUDGET_BASE, updates_since_sync: 0, last_decoded: None, peak_live: 1000 };
+    let mut s = Session::<DbBytes>::attach(dir, "m", st.model.clone(), 1000);
     if let Err(e) = s.open(&env.cfg) {
         fail(ctx, format!("state does not reopen: {e}"));
         return Err(());
@@ -408,6 +427,17 @@ fn transition(env: &Env, st: &State, pre_dec: &Decoded, op: &Op, ctx: &mut Ctx) 
     ctx.count(&format!("cover.{pos}.{opname}"), 1);
     ctx.count(&format!("moved.{pos}.{opname}.{}", moved.trim_end_matches('+')), 1);
     if let Err(f) = r {
+        // judged for another property (`--as`): the call-level mismatch is not ours, but what the files look
+        // like now may be
+        if !ctx.own.contains(&"C08") {
+            if let Ok(post) = Image::read(dir, "m") {
+                let dec = decoder::decode(&post, Some(DbBytes::SIG));
+                if let Some(p) = dec.problems.iter().find(|p| (ctx.own.contains(&"C05") && p.group.is_structure()) || (ctx.own.contains(&"C06") && p.group.is_storage()) || ctx.own.contains(&"C09")) {
+                    fail(ctx, format!("after {}: files no longer decode to the expected contents: {:?}: {}", op.text(), p.group, p.what));
+                    return Err(());
+                }
+            }
+        }
         fail(ctx, f.msg.clone());
         return Err(());
     }
@@ -420,7 +450,8 @@ fn transition(env: &Env, st: &State, pre_dec: &Decoded, op: &Op, ctx: &mut Ctx) 
     };
     let dec = decoder::decode(&post, Some(DbBytes::SIG));
     ctx.count("images_decoded", 1);
-    let prob = dec.problems.first().map(|p| format!("{:?}: {}", p.group, p.what)).or_else(|| decoder::contents_mismatch(&post, &dec, &s.model));
+    let pick = dec.problems.iter().find(|p| (ctx.own.contains(&"C05") && p.group.is_structure()) || (ctx.own.contains(&"C06") && p.group.is_storage())).or(dec.problems.first());
+    let prob = pick.map(|p| format!("{:?}: {}", p.group, p.what)).or_else(|| decoder::contents_mismatch(&post, &dec, &s.model));
     if let Some(p) = prob {
         fail(ctx, format!("after {}: files no longer decode to the expected contents: {p}", op.text()));
         return Err(());
